@@ -72,11 +72,11 @@ DiskRead(k) == IF k \in DOMAIN buffer.data THEN buffer.data[k]
                ELSE IF frozen.present /\ k \in DOMAIN frozen.data THEN frozen.data[k]
                ELSE kv.flat[k]
 
-(* layers whose lock cap holds for writing (diff.lock of the child being re-parented and of *)
-(* every layer of the persist chain above the one being committed)                          *)
+(* layers whose lock cap holds for writing (diff.lock of the children being re-parented and *)
+(* of every layer of the persist chain above the one being committed)                        *)
 CapIdle     == capst.pc = "idle"
 LockedOids  == IF CapIdle THEN {}
-               ELSE {capst.pending[i] : i \in 2..Len(capst.pending)} \cup (IF capst.child = 0 THEN {} ELSE {capst.child})
+               ELSE {capst.pending[i] : i \in 2..Len(capst.pending)} \cup capst.kids
 
 (* layer.account / layer.storage / layer.node: walk the parent chain of objects *)
 RECURSIVE Walk(_, _)
@@ -123,7 +123,7 @@ RemoveLayers(lk, S) ==
 (* --------------------------------- Init ---------------------------------- *)
 Idle == [pc |-> "idle", root |-> EmptyWorld, entry |-> NoRef, key |-> CHOOSE k \in Key : TRUE,
          tip |-> NoRef, res |-> 0, spurious |-> FALSE]
-CapNone == [pc |-> "idle", n |-> 0, pending |-> <<>>, child |-> 0, full |-> FALSE, oldbase |-> EmptyWorld,
+CapNone == [pc |-> "idle", n |-> 0, pending |-> <<>>, kids |-> {}, full |-> FALSE, oldbase |-> EmptyWorld,
             replaced |-> 0, doomed |-> {}]
 
 Init == /\ objs = <<>> /\ layers = <<>>
@@ -142,6 +142,7 @@ Init == /\ objs = <<>> /\ layers = <<>>
 UpdateResult(p, d) ==
   LET r == Apply(p, d) IN
   IF r = p THEN "cycle"                          \* rejected: layer cycle
+  ELSE IF r = disk.root THEN "dupdisk"           \* exists (ignored by add); the cap that follows refuses the disk layer
   ELSE IF r \in LiveRoots THEN "dup"             \* a layer with this root exists: ignored
   ELSE IF p \notin LiveRoots THEN "orphan"       \* parent layer missing
   ELSE "ok"
@@ -164,7 +165,7 @@ Update(p, d) ==
   /\ UNCHANGED <<store, capst, readers, async>>
 
 (* calls that change nothing: layer cycle, duplicate root, missing parent *)
-UpdateNoop(p, d) == CapIdle /\ UpdateResult(p, d) \in {"cycle", "dup", "orphan"} /\ UNCHANGED vars
+UpdateNoop(p, d) == CapIdle /\ UpdateResult(p, d) \in {"cycle", "dup", "dupdisk", "orphan"} /\ UNCHANGED vars
 
 (* ---------------------------------- Cap ----------------------------------- *)
 (* layerTree.cap(root, n): n = 0 is Database.Commit (persist(true) of the whole chain and   *)
@@ -193,8 +194,14 @@ CapBegin(r, n, full) ==
          top   == IF kind = "cap" THEN objs[child].par.ref ELSE layers[r]
          chain == Reverse(ChainDown(top))                                 \* bottom-most first
          keep  == IF kind = "cap" THEN {o \in LiveOids : o = child \/ IsAncObj(top, o)} \ {top} ELSE {}
+         (* the children that get the new disk layer as parent (under their lock): the one on the  *)
+         (* capped path, and - intended design only - its siblings                                  *)
+         kids  == IF kind # "cap" THEN {}
+                  ELSE IF RelinkSiblings
+                  THEN {o \in LiveOids : objs[o].par.k = "diff" /\ objs[o].par.ref = top}
+                  ELSE {child}
      IN /\ ChainSound(Reverse(chain))
-        /\ capst' = [pc |-> kind, n |-> n, pending |-> chain, child |-> child, full |-> full,
+        /\ capst' = [pc |-> kind, n |-> n, pending |-> chain, kids |-> kids, full |-> full,
                      oldbase |-> disk.root, replaced |-> top, doomed |-> LiveOids \ keep]
   /\ UNCHANGED <<tree, store, readers, async>>
 
@@ -214,7 +221,7 @@ CapStep ==
          gen1     == disk.gen + 1
          newref   == [k |-> "disk", ref |-> gen1, root |-> bot.root]
          rest     == Tail(capst.pending)
-         relink   == IF rest # <<>> THEN Head(rest) ELSE capst.child      \* 0 = nobody
+         relink   == IF rest # <<>> THEN {Head(rest)} ELSE capst.kids
          fz       == [present |-> TRUE, n |-> combined.n, data |-> combined.data, root |-> bot.root,
                       id |-> bot.id, done |-> FALSE]
      IN /\ flush => (~frozen.present \/ frozen.done)            \* dl.frozen.waitFlush() blocks
@@ -223,7 +230,7 @@ CapStep ==
            ELSE /\ buffer' = EmptyBuf
                 /\ IF async THEN frozen' = fz /\ UNCHANGED kv
                    ELSE frozen' = FrozenNone /\ kv' = Flushed(fz)
-        /\ objs' = IF relink = 0 THEN objs ELSE [objs EXCEPT ![relink].par = newref]
+        /\ objs' = [o \in DOMAIN objs |-> IF o \in relink THEN [objs[o] EXCEPT !.par = newref] ELSE objs[o]]
         /\ capst' = [capst EXCEPT !.pending = rest]
   /\ UNCHANGED <<layers, lookup, descendants, readers, async>>
 
@@ -258,11 +265,7 @@ CapEnd ==
           IN /\ layers' = ls1
              /\ descendants' = Restrict(descendants, (DOMAIN descendants) \ removed)
              /\ lookup' = RemoveLayers(lookup, gone)
-             /\ objs' = IF RelinkSiblings
-                        THEN [o \in DOMAIN objs |->
-                                IF o \in {ls1[x] : x \in DOMAIN ls1} /\ objs[o].par.k = "diff" /\ objs[o].par.ref = rep
-                                THEN [objs[o] EXCEPT !.par = DiskRef] ELSE objs[o]]
-                        ELSE objs
+             /\ UNCHANGED objs
   /\ capst' = CapNone
   /\ UNCHANGED <<store, readers, async>>
 
